@@ -60,7 +60,7 @@ def _process_vlandb(rule, key, diff, multi, multi_all, multi_chunk):  # pylint: 
             if not diff[Op.UNCHANGED]:
                 yield (False, rule["reverse"].format(*key) + " all", None)
                 return
-        elif not multi and not multi_all:
+        elif not multi and not multi_all and not diff[Op.UNCHANGED]:
             yield (False, rule["reverse"].format(*key), None)
             return
 
